@@ -266,10 +266,13 @@ def finishCase (s : SSt) (rline : String) : SSt := Id.run do
   let implOut := "\n".intercalate (s.infos.toList.map canonInfo ++ s.bests.toList ++ s.wlines.toList ++ [rline])
   -- ---------- property-level checks on the implementation's output alone ----------
   let legalNames := (Rules.legalMoves sn.pos).map specMoveName
-  if !(s.xlines.toList.filter fun x => !x.startsWith "K ").isEmpty then
-    s := s.report "spec" "C09" "search-panicked" s!"x=[{(s.xlines.toList.filter fun x => !x.startsWith "K ")}]"
+  if !(s.xlines.toList.filter fun x => !x.startsWith "K " && !x.startsWith "Q ").isEmpty then
+    s := s.report "spec" "C09" "search-panicked" s!"x=[{(s.xlines.toList.filter fun x => !x.startsWith "K " && !x.startsWith "Q ")}]"
   match s.xlines.toList.find? (·.startsWith "K ") with
   | some k => s := s.report "spec" "C04,C02,C09" "search-left-the-position-key-changed" s!"[{k}]"
+  | none => pure ()
+  match s.xlines.toList.find? (·.startsWith "Q ") with
+  | some q => s := s.report "spec" "C13" "cache-write-not-from-the-uninterrupted-search" s!"[{q}]"
   | none => pure ()
   if s.bests.size != 1 then
     s := s.report "spec" "C09" "bestmove-count" s!"count={s.bests.size}"
@@ -438,6 +441,7 @@ def sstep (s : SSt) (line : String) : SSt :=
   else if line.startsWith "V " then { s with vlines := s.vlines.push line }
   else if line.startsWith "X " then { s with xlines := s.xlines.push line }
   else if line.startsWith "K " then { s with xlines := s.xlines.push line }
+  else if line.startsWith "Q " then { s with xlines := s.xlines.push line }
   else if line.startsWith "R " then finishCase s (line.drop 2).toString
   else if line.startsWith "D! " then
     -- the harness searched a position right after an unrelated search (cache cleared in between) and got another result
